@@ -248,3 +248,78 @@ end TmVerif
 #print axioms TmVerif.E2E_timed
 #print axioms TmVerif.E2E_timed_polling
 #print axioms TmVerif.wireOfTLog_noTicks
+
+/-! ### All bytes of a closed run (appended after the audit of §14.6: `callsSends` leaves the chords out) -/
+
+namespace TmVerif
+
+/-- the items of a timed log, ticks dropped -/
+def itemsOf : List TItem → List Item
+  | [] => []
+  | TItem.item i :: is => i :: itemsOf is
+  | TItem.tick :: is => itemsOf is
+
+theorem itemsOf_append (a b : List TItem) : itemsOf (a ++ b) = itemsOf a ++ itemsOf b := by
+  induction a with
+  | nil => rfl
+  | cons t ts ih => cases t <;> simp [itemsOf, ih]
+
+theorem itemsOf_tlogStep (x : Machine) (r : Resp) (lg : List Item) :
+    logStep x r lg = lg ++ itemsOf (tlogStep x r) := by
+  obtain ⟨v, c⟩ := x
+  cases c <;> cases r <;> simp [logStep, tlogStep, itemsOf]
+  · rename_i t p
+    cases p <;> simp [itemsOf]
+    cases v.rep <;> simp [itemsOf]
+    split <;> simp [itemsOf]
+  · rename_i rest n
+    cases n <;> simp [itemsOf]
+  · rename_i rest n
+    cases n <;> simp [itemsOf]
+
+/-- the timed read log without its ticks is the read log -/
+theorem itemsOf_tlogOf (L : Layout) (x : Machine) (lg : List Item) (rs : List Resp) :
+    runLog L x lg rs = lg ++ itemsOf (tlogOf L x rs) := by
+  induction rs generalizing x lg with
+  | nil => simp [runLog, tlogOf, itemsOf]
+  | cons r rs ih =>
+    simp only [runLog, tlogOf]
+    cases hp : pending x with
+    | none => simp [itemsOf]
+    | some c =>
+      simp only []
+      rw [ih, itemsOf_append, itemsOf_tlogStep, List.append_assoc]
+
+/-- E2E, ALL bytes of a closed run: for every layout (Special repeats included), every list of chunks of
+whole records, every run of the closed system — with time-outs at any moment, so with repeat chords —
+that has delivered the chunks and come to rest at `poll`: the bytes of ALL sends (`allSends`: step,
+release-all and chord sends) are `wireOfTLog` of a timed log whose items, ticks dropped, are a read log
+with exactly the decoded keyboard stream and exactly the decoded tablet-switch stream. -/
+theorem E2E_closed_all (L : Layout) (x0 : Machine) (h0 : Machine.init L = some x0) (chunks : List Chunk)
+    (hal : Aligned chunks) (ms : List Move) (x : Machine) (e : Env)
+    (hrun : crun L (x0, Env.init (chunks.map Chunk.arrival)) ms = some (x, e)) (hq : Quiescent (x, e))
+    (hall : e.rest = []) :
+    ∃ tl : List TItem,
+      kbdOf (itemsOf tl) = decodeStream (kbdBytes chunks) ∧
+      tabOf (itemsOf tl) = decodeTabletStream (tabBytes chunks) ∧
+      wireOfTLog L State.init none false tl =
+        some ((allSends (runScript L x0 (answers ms)).1).flatMap encodeBatch) := by
+  have hrest : AtRest (x, e) := ⟨hall, Or.inl hq⟩
+  obtain ⟨h1, h2, _⟩ := E2E_closed L x0 h0 chunks hal ms x e hrun hrest
+  have hlog := itemsOf_tlogOf L x0 [] (answers ms)
+  simp only [List.nil_append] at hlog
+  have hinv := crun_inv ms x0 (Env.init (chunks.map Chunk.arrival)) Ghost.init [] x e (EnvInv.init h0 _) (FifoInv.init h0 _) hrun
+  have hne : noErr (answers ms) = true := hinv.2.2.2
+  have hx : (runScript L x0 (answers ms)).2 = x := by
+    rw [← runG_machine]; rw [hinv.1]
+  obtain ⟨hp, _, _⟩ := hq
+  simp only at hp
+  cases hc : x.c <;> simp [hc, Ctl.isPolling] at hp
+  rename_i t
+  refine ⟨tlogOf L x0 (answers ms), by rw [← hlog]; exact h1, by rw [← hlog]; exact h2, ?_⟩
+  exact E2E_timed_polling L x0 h0 (answers ms) hne t (by rw [hx]; exact hc)
+
+end TmVerif
+
+#print axioms TmVerif.itemsOf_tlogOf
+#print axioms TmVerif.E2E_closed_all
